@@ -20,6 +20,7 @@ type Ctx struct {
 	WD       *hx.Watchdog
 	stop     bool
 	unit     int
+	Only06   bool // evaluate only the C06 predicate on the generated sources
 }
 
 func (c *Ctx) expired() bool {
